@@ -188,4 +188,175 @@ Section Fuel.
       + apply (Hstat RSPending s3); [reflexivity| |exact H].
         unfold mu; rewrite Hs3c, Hs3t, Hs3f; lia.
   Qed.
+
+  Lemma TF_ready : forall t, tfuel (snd (t_ready tp t)) <= tfuel t. Proof. apply TF. Qed.
+  Lemma TF_flush : forall t, tfuel (snd (t_flush tp t)) <= tfuel t. Proof. apply TF. Qed.
+  Lemma TF_send : forall t m, tfuel (snd (t_send tp t m)) <= tfuel t. Proof. apply TF. Qed.
+
+  Lemma mu_do_ready : forall (s : st) r s', do_ready tp s = (r, s') ->
+    mu s' <= mu s /\ s_respq s' = s_respq s.
+  Proof.
+    intros s r s' H; unfold do_ready in H. pose proof (TF_ready (s_t s)) as Hr.
+    destruct (t_ready tp (s_t s)) as [x t']. injection H as <- <-. unfold mu; sproj.
+    split; [lia|reflexivity].
+  Qed.
+  Lemma mu_do_flush : forall (s : st) r s', do_flush tp s = (r, s') ->
+    mu s' <= mu s /\ s_respq s' = s_respq s.
+  Proof.
+    intros s r s' H; unfold do_flush in H. pose proof (TF_flush (s_t s)) as Hr.
+    destruct (t_flush tp (s_t s)) as [x t']. injection H as <- <-. unfold mu; sproj.
+    split; [lia|reflexivity].
+  Qed.
+  Lemma mu_do_send : forall m (s : st) r s', do_send tp m s = (r, s') ->
+    mu s' <= mu s /\ s_respq s' = s_respq s.
+  Proof.
+    intros m s r s' H; unfold do_send in H. pose proof (TF_send (s_t s) m) as Hr.
+    destruct (t_send tp (s_t s) m) as [x t']. injection H as <- <-. unfold mu; sproj.
+    split; [lia|reflexivity].
+  Qed.
+
+  Lemma mu_base_start_send : forall m (s : st) e s', base_start_send tp m s = (e, s') ->
+    mu s' <= mu s /\ s_respq s' = s_respq s.
+  Proof.
+    intros m s e s' H; unfold base_start_send in H.
+    destruct (mu_remove_request (resp_id m) s) as (A & B & _).
+    destruct (remove_request (resp_id m) s) as [was s1]. cbn [snd] in *.
+    destruct was.
+    - destruct (do_send tp m s1) as [r s2] eqn:ES. destruct (mu_do_send _ _ _ _ ES) as (D & E).
+      injection H as <- <-. split; [lia|congruence].
+    - injection H as <- <-. split; [lia|congruence].
+  Qed.
+
+  (* MaxRequests::poll_next *)
+  Lemma maxreq_fuel : forall f limit (s : st) r s',
+    mu s < f -> maxreq_poll_next tp f limit s = (r, s') ->
+    r <> PFuel /\ s_respq s' = s_respq s
+    /\ match r with PReady _ => S (mu s') <= mu s | _ => mu s' <= mu s end.
+  Proof.
+    induction f as [|f IH]; intros limit s r s' Hmu H; [lia|].
+    cbn [maxreq_poll_next] in H.
+    destruct (limit <=? length (s_inflight s)).
+    - destruct (do_ready tp s) as [x s1] eqn:ER. destruct (mu_do_ready _ _ _ ER) as (A & B).
+      destruct x.
+      + destruct (base_poll_next tp (S f) s1) as [y s2] eqn:EB.
+        assert (Hlt : mu s1 < S f) by lia.
+        destruct (base_fuel _ _ _ _ Hlt EB) as (D & E & F).
+        destruct y as [q| | | |].
+        * destruct (base_start_send tp (mkresp (q_id q) BThrottle) s2) as [e s3] eqn:ESS.
+          destruct (mu_base_start_send _ _ _ _ ESS) as (G & I).
+          destruct e.
+          -- injection H as <- <-. split; [discriminate|]. split; [congruence|lia].
+          -- assert (Hlt3 : mu s3 < f) by lia.
+             destruct (IH _ _ _ _ Hlt3 H) as (J & K & L). split; [exact J|]. split; [congruence|].
+             destruct r; lia.
+        * injection H as <- <-. split; [discriminate|]. split; [congruence|lia].
+        * injection H as <- <-. split; [discriminate|]. split; [congruence|lia].
+        * injection H as <- <-. split; [discriminate|]. split; [congruence|lia].
+        * exfalso; apply D; reflexivity.
+      + injection H as <- <-. split; [discriminate|]. split; [congruence|lia].
+      + injection H as <- <-. split; [discriminate|]. split; [congruence|lia].
+    - assert (Hlt : mu s < S f) by lia. exact (base_fuel _ _ _ _ Hlt H).
+  Qed.
+
+  Lemma mu_add_permit : forall (s : st), mu (add_permit s) = mu s /\ s_respq (add_permit s) = s_respq s.
+  Proof.
+    intros s; unfold add_permit. destruct (s_waiters s) as [|k r]; [split; reflexivity|].
+    sproj. destruct (nth_error (s_handlers s) k) as [[h i [| |b|b| |]]|]; split; reflexivity.
+  Qed.
+
+  Lemma mu_ensure_writeable : forall (s : st) w s', ensure_writeable tp s = (w, s') ->
+    mu s' <= mu s /\ s_respq s' = s_respq s.
+  Proof.
+    intros s w s' H; unfold ensure_writeable in H.
+    destruct (do_ready tp s) as [r s1] eqn:E1. destruct (mu_do_ready _ _ _ E1) as (A & B).
+    destruct r; try (injection H as <- <-; split; [lia|congruence]).
+    destruct (do_flush tp s1) as [f s2] eqn:E2. destruct (mu_do_flush _ _ _ E2) as (D & E).
+    destruct f; try (injection H as <- <-; split; [lia|congruence]).
+    destruct (do_ready tp s2) as [r2 s3] eqn:E3. destruct (mu_do_ready _ _ _ E3) as (F & G).
+    destruct r2; injection H as <- <-; split; try lia; congruence.
+  Qed.
+
+  (* Requests::pump_write *)
+  Lemma pump_write_fuel : forall rc (s : st) w s', pump_write tp rc s = (w, s') ->
+    w <> PFuel /\ mu s' <= mu s
+    /\ match w with
+       | PReady _ => S (length (s_respq s')) <= length (s_respq s)
+       | _ => length (s_respq s') <= length (s_respq s) end.
+  Proof.
+    intros rc s w s' H; unfold pump_write, poll_next_response in H.
+    destruct (ensure_writeable tp s) as [x s1] eqn:EW.
+    destruct (mu_ensure_writeable _ _ _ EW) as (A & B).
+    assert (Hfl : forall (sx : st) (isend : bool) w s',
+               mu sx <= mu s -> length (s_respq sx) <= length (s_respq s) ->
+               (let '(f, s2) := do_flush tp sx in
+                match f with
+                | TErr => (PErr AFlush, s2)
+                | TPending => (PPending, s2)
+                | TOk => if isend then (PEnd, s2)
+                         else if rc && Nat.eqb (length (s_inflight s2)) 0 then (PEnd, s2)
+                              else (PPending, s2)
+                end) = (w, s') ->
+               w <> PFuel /\ mu s' <= mu s
+               /\ match w with
+                  | PReady _ => S (length (s_respq s')) <= length (s_respq s)
+                  | _ => length (s_respq s') <= length (s_respq s) end).
+    { intros sx isend w0 s0 Hm Hq HH. destruct (do_flush tp sx) as [f s2] eqn:EFl.
+      destruct (mu_do_flush _ _ _ EFl) as (D & E).
+      destruct f; [destruct isend; [|destruct (rc && _)]| |];
+        injection HH as <- <-; (split; [discriminate|]); (split; [lia|]); rewrite E; lia. }
+    destruct x as [| |a].
+    - destruct (s_respq s1) as [|m q] eqn:EQ.
+      + cbn [fst snd] in H. apply (Hfl s1 false); [lia|rewrite B; lia|exact H].
+      + cbn [fst snd] in H.
+        destruct (mu_add_permit (set_respq s1 q)) as (D & E).
+        destruct (base_start_send tp m (add_permit (set_respq s1 q))) as [e s2] eqn:ES.
+        destruct (mu_base_start_send _ _ _ _ ES) as (F & G).
+        assert (Hq : S (length (s_respq s2)) <= length (s_respq s)).
+        { rewrite G, E. sproj. rewrite <- B, EQ. cbn. lia. }
+        assert (Hm : mu s2 <= mu s).
+        { rewrite D in F. change (mu (set_respq s1 q)) with (mu s1) in F. lia. }
+        destruct e; injection H as <- <-; (split; [discriminate|]); (split; [lia|]); lia.
+    - cbn [fst snd] in H. apply (Hfl s1 false); [lia|rewrite B; lia|exact H].
+    - injection H as <- <-. split; [discriminate|]. split; [lia|rewrite B; lia].
+  Qed.
+
+  Lemma pump_read_fuel : forall c f (s : st) r s',
+    mu s < f -> pump_read tp c f s = (r, s') ->
+    r <> PFuel /\ s_respq s' = s_respq s
+    /\ match r with PReady _ => S (mu s') <= mu s | _ => mu s' <= mu s end.
+  Proof.
+    intros c f s r s' Hmu H; unfold pump_read in H. destruct (cfg_limit c).
+    - exact (maxreq_fuel _ _ _ _ _ Hmu H).
+    - exact (base_fuel _ _ _ _ Hmu H).
+  Qed.
+
+  (* impl Stream for Requests: poll_next *)
+  Lemma requests_fuel : forall c f (s : st) r s',
+    mu s + length (s_respq s) < f -> requests_poll_next tp c f s = (r, s') -> r <> PFuel.
+  Proof.
+    induction f as [|f IH]; intros s r s' Hmu H; [lia|].
+    cbn [requests_poll_next] in H.
+    destruct (pump_read tp c (S f) s) as [rd s1] eqn:ER.
+    assert (Hlt : mu s < S f) by lia.
+    destruct (pump_read_fuel _ _ _ _ _ Hlt ER) as (A & B & D).
+    destruct rd as [q| |a| |]; try (exfalso; apply A; reflexivity);
+      try (injection H as <- <-; discriminate).
+    all: match type of H with context [pump_write tp ?b s1] =>
+           destruct (pump_write tp b s1) as [wr s2] eqn:EW;
+           destruct (pump_write_fuel _ _ _ _ EW) as (E & F & G) end.
+    all: destruct wr as [u| |a| |]; try (exfalso; apply E; reflexivity);
+      try (injection H as <- <-; discriminate).
+    all: try (apply (IH s2 r s'); [rewrite B in G; lia|exact H]).
+  Qed.
+
+  Lemma poll_requests_no_fuel : forall c (s : st),
+    ~ In OFuel (snd (poll_requests tp tfuel c s)).
+  Proof.
+    intros c s; unfold poll_requests. destruct (s_dropped s); [cbn; tauto|].
+    destruct (requests_poll_next tp c (poll_fuel tfuel s) (set_log s [])) as [r s1] eqn:ER.
+    assert (Hr : r <> PFuel).
+    { apply (requests_fuel c _ _ _ _) in ER; [exact ER|].
+      unfold poll_fuel, mu; sproj. lia. }
+    destruct r; cbn; try (intros [HH|[HH|[]]]; discriminate). exfalso; apply Hr; reflexivity.
+  Qed.
 End Fuel.
